@@ -201,6 +201,9 @@ def compare(impl_payload, model_payload, line=""):
         b.append(("panic", "the parser panicked"))
     if "s.w" in M and "s.ess" not in M and I.get("w") != M["s.w"]:
         b.append(("w", "weight %s, the function has %s satisfying points" % (I.get("w"), M["s.w"])))
+    for k_ in ("nnf", "cnf", "dnf"):
+        if "s." + k_ in M and "shape" not in M and I.get(k_) != M["s." + k_]:
+            b.append((k_, "is_%s answers %s, the reference shape predicate %s" % (k_, I.get(k_), M["s." + k_])))
     if "s.shape" in M and I.get("shape") != M["s.shape"]:
         b.append(("shape", "normal forms of a constant-free expression do not satisfy is_nnf / is_cnf / is_dnf: %s" % I.get("shape")))
     if "s.fresh" in M and I.get("fresh") != M["s.fresh"]:
